@@ -94,6 +94,9 @@ func (p *VerifC10Probe) Watch(endpointURL string) {
 	}
 }
 
+// Done is the number of unification goroutines that have run to completion so far.
+func (p *VerifC10Probe) Done() int64 { return p.done.Load() }
+
 // WaitMerged blocks until n unification goroutines have run to completion (or the timeout
 // expires: false).
 func (p *VerifC10Probe) WaitMerged(n int64, timeout time.Duration) bool {
